@@ -1,11 +1,200 @@
-//! C14 (b) — establishment and TLS handshake timeouts through the door. Built later in the round.
-use crate::engine::report::{Report, Tier, Violation};
-use serde_json::json;
+//! C14 (b) — establishment and TLS-handshake timeouts: they fire at the limit (not before), the
+//! client is told 502/302 resp. the connection is dropped, and sockets and tasks are released.
 
-pub fn run_into(rep: &mut Report, _tier: Tier) {
-    rep.sub.push(json!({"sub":"establishment-and-handshake-timeouts","status":"not built yet"}));
+use super::c01::{b64, USERS};
+use super::common::{make_world, Cfg};
+use super::door::{self, H1Client, H2Client, H2Outcome, ReqSpec};
+use crate::engine::report::{Report, Tier, Violation};
+use crate::engine::rt;
+use crate::engine::sys::{self, ConnectAnswer};
+use serde_json::json;
+use std::cell::Cell;
+use std::net::SocketAddr;
+use std::time::Duration;
+use tokio::io::{AsyncReadExt, AsyncWriteExt};
+use trusttunnel::verif_hooks::{self as vh, VProtocol};
+
+thread_local! {
+    static HOLE: Cell<u16> = const { Cell::new(0) };
 }
 
-pub fn replay(_case: &serde_json::Value) -> Result<(), Violation> {
-    Err(Violation::new("C14:machinery", "no replay yet", json!({})))
+fn to_hole(_a: &SocketAddr, _t: i32) -> ConnectAnswer {
+    ConnectAnswer::RedirectLoopback(HOLE.with(|h| h.get()))
+}
+
+const EST_MS: u64 = 3000;
+
+async fn establishment(h2: bool) -> Result<&'static str, Violation> {
+    let case = json!({"kind":"establishment","sub":"connect","h2":h2});
+    let mk = |sig: &str, what: String| Violation::new(format!("C14:establishment:{sig}:{}", if h2 { "h2" } else { "h1" }), what, case.clone());
+    let cfg = Cfg { clients: USERS.iter().map(|(u, p)| (u.to_string(), p.to_string())).collect(), connect_timeout: Duration::from_millis(EST_MS), ..Cfg::default() };
+    let world = make_world(&cfg).map_err(|e| Violation::new("C14:machinery", e, json!({})))?;
+    let hole = door::black_hole().map_err(|e| Violation::new("C14:machinery", e, json!({})))?;
+    HOLE.with(|h| h.set(hole.port));
+    sys::script_connect(Some(to_hole));
+    let handle = tokio::runtime::Handle::current();
+    door::spin(20).await;
+    let tasks_before = handle.metrics().num_alive_tasks();
+    let peer: SocketAddr = "198.51.100.7:40000".parse().unwrap();
+    let proto = if h2 { VProtocol::Http2 } else { VProtocol::Http1 };
+    let (io, d) = door::open(&world.ctx, proto, "m.t", None, peer, 1 << 16);
+    let spec = ReqSpec::connect("93.184.216.34:443").with_auth(Some(format!("Basic {}", b64(USERS[0].0, USERS[0].1)).into_bytes()));
+    let mut h1 = None;
+    let mut h2c = None;
+    let mut st = None;
+    if !h2 {
+        let mut cl = H1Client::new(io);
+        cl.send(&spec.h1_bytes()).await;
+        h1 = Some(cl);
+    } else {
+        let mut cl = H2Client::connect(io).await.map_err(|e| Violation::new("C14:machinery", e, json!({})))?;
+        st = Some(cl.request(spec.h2_request().unwrap(), false).await.map_err(|e| Violation::new("C14:machinery", e, json!({})))?);
+        h2c = Some(cl);
+    }
+    door::spin(300).await;
+    if vh::metrics_snapshot(&world.ctx).outbound_tcp_sockets != 1 {
+        return Err(Violation::new("C14:machinery", "the connection attempt did not start", case));
+    }
+    // just before the limit nothing may have been answered
+    tokio::time::advance(Duration::from_millis(EST_MS - 1)).await;
+    door::spin(200).await;
+    let early = if let Some(cl) = h1.as_mut() {
+        cl.pump(50).await;
+        cl.take_response().map(|r| r.status)
+    } else {
+        match st.as_mut().unwrap().response(Duration::from_millis(1)).await {
+            H2Outcome::Response(r) => Some(r.status),
+            _ => None,
+        }
+    };
+    if let Some(s) = early {
+        return Err(mk("fired-early", format!("answered {s} after {} ms, before the establishment timeout of {EST_MS} ms", EST_MS - 1)));
+    }
+    tokio::time::advance(Duration::from_millis(2)).await;
+    let resp = if let Some(cl) = h1.as_mut() {
+        cl.response(Duration::from_secs(3)).await
+    } else {
+        match st.as_mut().unwrap().response(Duration::from_secs(3)).await {
+            H2Outcome::Response(r) => Some(r),
+            _ => None,
+        }
+    };
+    match &resp {
+        Some(r) if r.status == 502 && r.header("x-warning").unwrap_or("").starts_with("302") => {}
+        other => return Err(mk("not-reported-as-502-302", format!("after the establishment timeout the client got {other:?}"))),
+    }
+    door::spin(200).await;
+    let g = vh::metrics_snapshot(&world.ctx).outbound_tcp_sockets;
+    if g != 0 {
+        return Err(mk("attempt-not-abandoned", format!("outbound_tcp_sockets = {g} after the attempt timed out and was reported")));
+    }
+    drop(st);
+    drop(h2c);
+    drop(h1);
+    let mut task = d.task;
+    let mut f = Box::pin(&mut task);
+    if door::until(&mut f, Duration::from_secs(3)).await.is_none() {
+        return Err(mk("session-not-released", "the session task is alive after the client left".into()));
+    }
+    door::spin(300).await;
+    let tasks_after = handle.metrics().num_alive_tasks();
+    if tasks_after > tasks_before {
+        return Err(mk("tasks-not-released", format!("{} task(s) still alive after the connection ended (before: {tasks_before}, after: {tasks_after})", tasks_after - tasks_before)));
+    }
+    Ok("502-302-and-released")
+}
+
+const TLS_MS: u64 = 2000;
+
+/// first bytes of a TLS record carrying a ClientHello (never completed)
+const HELLO_PREFIX: &[u8] = &[0x16, 0x03, 0x01, 0x02, 0x00, 0x01, 0x00, 0x01, 0xfc, 0x03, 0x03];
+
+async fn tls_handshake(sent: usize) -> Result<&'static str, Violation> {
+    let case = json!({"kind":"establishment","sub":"tls","sent":sent});
+    let mk = |sig: &str, what: String| Violation::new(format!("C14:tls-handshake:{sig}"), what, case.clone());
+    // a free loopback port
+    let port = {
+        let l = std::net::TcpListener::bind("127.0.0.1:0").map_err(|e| Violation::new("C14:machinery", e.to_string(), json!({})))?;
+        l.local_addr().unwrap().port()
+    };
+    let cfg = Cfg { listen: SocketAddr::from(([127, 0, 0, 1], port)), tls_timeout: Duration::from_millis(TLS_MS), ..Cfg::default() };
+    let world = make_world(&cfg).map_err(|e| Violation::new("C14:machinery", e, json!({})))?;
+    let handle = tokio::runtime::Handle::current();
+    let core = std::sync::Arc::new(world.core);
+    let c2 = core.clone();
+    let listen = tokio::spawn(async move { c2.listen().await });
+    door::spin(200).await;
+    let tasks_before = handle.metrics().num_alive_tasks();
+    let mut connect = Box::pin(tokio::net::TcpStream::connect(("127.0.0.1", port)));
+    let mut s = match door::until(&mut connect, Duration::from_secs(3)).await {
+        Some(Ok(s)) => s,
+        other => return Err(Violation::new("C14:machinery", format!("cannot connect to the endpoint: {:?}", other.map(|r| r.map(|_| ()))), case)),
+    };
+    drop(connect);
+    if sent > 0 {
+        let mut w = Box::pin(s.write_all(&HELLO_PREFIX[..sent]));
+        let _ = door::until(&mut w, Duration::from_secs(1)).await;
+    }
+    door::spin(300).await;
+    tokio::time::advance(Duration::from_millis(TLS_MS - 1)).await;
+    door::spin(300).await;
+    let mut buf = [0u8; 64];
+    {
+        let mut r = Box::pin(s.read(&mut buf));
+        if let Some(x) = door::poll_once(&mut r).await {
+            return Err(mk("dropped-early", format!("connection ended ({x:?}) {} ms into the handshake, before the timeout of {TLS_MS} ms", TLS_MS - 1)));
+        }
+    }
+    tokio::time::advance(Duration::from_millis(2)).await;
+    let closed = {
+        let mut r = Box::pin(s.read(&mut buf));
+        door::until(&mut r, Duration::from_secs(3)).await
+    };
+    match closed {
+        Some(Ok(0)) | Some(Err(_)) => {}
+        Some(Ok(n)) => return Err(mk("answered-instead-of-dropped", format!("{n} bytes received from a connection whose handshake never completed"))),
+        None => return Err(mk("not-dropped", format!("the connection is still open after the TLS handshake timeout ({TLS_MS} ms)"))),
+    }
+    drop(s);
+    door::spin(300).await;
+    let tasks_after = handle.metrics().num_alive_tasks();
+    if tasks_after > tasks_before {
+        return Err(mk("tasks-not-released", format!("{} task(s) still alive after the connection was dropped", tasks_after - tasks_before)));
+    }
+    listen.abort();
+    let _ = world.shutdown;
+    Ok("dropped-and-released")
+}
+
+pub fn run_into(rep: &mut Report, _tier: Tier) {
+    let mut n = 0u64;
+    let mut classes = std::collections::BTreeSet::new();
+    for h2 in [false, true] {
+        n += 1;
+        match rt::run_paused(establishment(h2)) {
+            Ok(k) => {
+                classes.insert(format!("connect:{h2}:{k}"));
+            }
+            Err(v) => rep.violation(v),
+        }
+    }
+    for sent in [0usize, 1, 5, HELLO_PREFIX.len()] {
+        n += 1;
+        match rt::run_paused(tls_handshake(sent)) {
+            Ok(k) => {
+                classes.insert(format!("tls:{sent}:{k}"));
+            }
+            Err(v) => rep.violation(v),
+        }
+    }
+    rep.sub.push(json!({"sub":"establishment-and-handshake-timeouts","scenarios":n,"passed_classes":classes.len(),
+        "what":"black-hole connect x {h1,h2}: nothing answered at T-1ms, 502/302 at T+1ms, outbound_tcp_sockets back to 0, session and tasks released; real Core::listen on loopback with a ClientHello stalled after {0,1,5,11} bytes: open at T-1ms, dropped at T+1ms, tasks released"}));
+}
+
+pub fn replay(case: &serde_json::Value) -> Result<(), Violation> {
+    match case["sub"].as_str() {
+        Some("connect") => rt::run_paused(establishment(case["h2"].as_bool().unwrap_or(false))).map(|_| ()),
+        Some("tls") => rt::run_paused(tls_handshake(case["sent"].as_u64().unwrap_or(0) as usize)).map(|_| ()),
+        _ => Err(Violation::new("C14:machinery", "bad replay file", json!({}))),
+    }
 }
